@@ -16,10 +16,7 @@ func (p *Program) asciiGuard(fn *ssa.Function, v ssa.Value, at ssa.Instruction) 
 		if tb.Term(l.Over).Key() != vKey {
 			continue
 		}
-		if !(l.Exit == at.Block() || l.Exit.Dominates(at.Block())) {
-			continue
-		}
-		if len(l.earlyExits()) != 0 {
+		if !p.completedAt(l, at.Block()) {
 			continue
 		}
 		// element symbol inside the loop
